@@ -1,7 +1,7 @@
 """C15: queries are pure, optimize changes only vertex poses (frame conditions of GraphSLAM imposed on recorded executions)."""
 from .. import scenario
 
-TEMPLATES = ['r2', 'r3', 'se2', 'se3', 'se2c', 'se3c', 'r2c', 'mixed', 'se2fix', 'se2alias', 'se2shared', 'r3shared', 'r2lonely', 'se3lonely', 'se2big', 'se2plain', 'se3reg', 'se2plainc', 'se2desc', 'se3desc', 'se3neg', 'se3rough', 'se2rim', 'se2hard', 'se3noid', 'se2inplace', 'se3inplace']
+TEMPLATES = ['r2', 'r3', 'se2', 'se3', 'se2c', 'se3c', 'r2c', 'mixed', 'se2fix', 'se2alias', 'se2shared', 'r3shared', 'r2lonely', 'se3lonely', 'se2big', 'se2plain', 'se3reg', 'se2plainc', 'se2desc', 'se3desc', 'se3neg', 'se3rough', 'se2rim', 'se2hard', 'se3noid', 'se2inplace', 'se3inplace', 'se2fault', 'se3fault', 'r2fault']
 
 
 def model_check(run, thorough):
@@ -66,6 +66,20 @@ def binding_selftest(run, events):
             del t4[n]
             wanted.append((t4, (nxt['sid'], nxt['seq']), 'query-pure'))
             break
+    # (5) a call cut short by a failing edge leaves an edge's numbers changed / claims more complete iterations than the failing assembly allows
+    sids = sorted({e['sid'] for e in events if e['op'] == 'OptAbort' and e['edges']})[:2]
+    t5 = copy.deepcopy([e for e in events if e['sid'] in sids])
+    for e in t5:
+        if e['op'] == 'OptAbort':
+            e['edges'][0]['num'] = 'corrupted0000'
+            wanted.append((t5, (e['sid'], e['seq']), 'abort-effect'))
+            break
+    t6 = copy.deepcopy([e for e in events if e['sid'] in sids])
+    for e in t6:
+        if e['op'] == 'OptAbort':
+            e['applied'] = e['failAt']
+            wanted.append((t6, (e['sid'], e['seq']), 'abort-atomic'))
+            break
     caught = 0
     for trace, where, clause in wanted:
         rej = scenario.validate(run, trace, name='Trace_selftest')
@@ -82,7 +96,7 @@ def check(run):
     model_check(run, thorough)
     num = 1500 if thorough else 160
     depth = 51 if thorough else 31
-    behaviours = scenario.generate(run, TEMPLATES, run.seed, num, depth, workers=8, edits=True)
+    behaviours = scenario.generate(run, TEMPLATES, run.seed, num, depth, workers=8, edits=True, faults=True)
     # hand-written behaviours: every query on every edge / vertex of graphs whose quaternions are stored with negative scalar parts and of a
     # file-expressible graph, whatever the seed generated
     def qy(name, t=1):
@@ -94,6 +108,12 @@ def check(run):
     behaviours.append(('se2rim', [qy(nm, t) for t in (13, 12, 26) for nm in ('edge_error', 'edge_jacobians', 'edge_contribs', 'edge_chi2', 'calc_chi2', 'edge_jacobians')]))
     # non-finite information entries: every kind of query on the affected edges
     behaviours.append(('se2hard', [qy(nm, t) for t in (3, 5, 3) for nm in ('edge_chi2', 'edge_contribs', 'edge_jacobians', 'calc_chi2', 'edge_to_g2o', 'equals')]))
+    # optimizer calls cut short by a failing user-defined edge (GraphSLAM!OptAbort) at every assembly 1..3, then the session goes on
+    def ab(m, k, ff):
+        return {'op': 'OptAbort', 'q': '-', 'target': 0, 'maxIter': m, 'fixFirst': ff, 'verbose': False, 'tol': '-', 'idx': k, 'flag': False}
+    for tname in ('se2fault', 'se3fault', 'r2fault'):
+        behaviours.append((tname, [qy('calc_chi2'), ab(3, 1, False), qy('calc_chi2'), ab(3, 2, True), qy('calc_chi2'), qy('edge_contribs', 3), ab(4, 3, True), qy('calc_chi2'), qy('to_g2o'),
+                                   {'op': 'OptCall', 'q': '-', 'target': 0, 'maxIter': 2, 'fixFirst': True, 'verbose': False, 'tol': '0', 'idx': 0, 'flag': False}, qy('calc_chi2')]))
     events = []
     sessions = scenario.play(behaviours, run.seed, events, twin_every=3)
     rejects = scenario.validate(run, events)
@@ -109,7 +129,9 @@ def check(run):
     run.notes['events_by_operation'] = ops
     run.notes['reloads'] = {'continued': sum(1 for e in events if e['op'] == 'Reload' and not e['raised']), 'refused': sum(1 for e in events if e['op'] == 'Reload' and e['raised'])}
     missing = [q for q in ('calc_chi2', 'edge_error', 'edge_jacobians', 'edge_contribs', 'equals', 'to_g2o', 'plot', 'pose_ops', 'pose_copy') if ('Query:' + q) not in ops]
-    if missing or 'OptCall' not in ops:
+    run.notes['aborted_optimizer_calls'] = {'events': ops.get('OptAbort', 0), 'raised': sum(1 for e in events if e['op'] == 'OptAbort' and e['raised']),
+                                            'cut_after_complete_iterations': sorted({e['applied'] for e in events if e['op'] == 'OptAbort'})}
+    if missing or 'OptCall' not in ops or 'OptAbort' not in ops:
         raise RuntimeError('vacuity guard: operations never exercised: %r' % missing)
     for sid, seq, clause in rejects:
         ev = byid[(sid, seq)]
@@ -119,11 +141,11 @@ def check(run):
                    isolated_fixed=any(det.get('isolated_fixed', [])) if det else None)
         if clause in ('opt-report', 'opt-split', 'opt-verbose', 'opt-raised', 'opt-fresh'):
             continue        # the report / stopping rule is C12's property
-        if clause in ('opt-str', 'construct-gradient-index', 'query-fresh') or clause.startswith('reload-'):
+        if clause in ('opt-str', 'construct-gradient-index', 'query-fresh', 'abort-raised', 'abort-atomic') or clause.startswith('reload-'):
             # behaviour specified beyond the listed properties (DESIGN.md section 6): recorded, never a verdict of this property
             run.notes.setdefault('beyond_list_rejections', []).append([sid, seq, clause])
             continue
-        if clause == 'opt-effect' and det.get('nan'):
+        if clause in ('opt-effect', 'abort-effect') and det.get('nan'):
             continue        # a fixed vertex moved by a NaN solve is C06's property (fault sequences), reported there
         run.violation(key, 'trace rejected at session %d event %d (%s %s): clause %s | template %s' % (sid, seq, ev['op'], ev.get('q', ''), clause, s.template),
                       dict(event=ev, detail=det, session_template=s.template, prefix=[x for x in events if x['sid'] == sid and x['seq'] < seq][-3:]))
